@@ -633,6 +633,9 @@ func optOne(c *common.Ctx, cs *common.Cases, oc *optCase, stream string) {
 		if malformed && (strings.Contains(msg, "index out of range") || strings.Contains(msg, "nil pointer")) {
 			return "panic:blackboxes-attribute-shape"
 		}
+		if strings.Contains(msg, "Unrecognised statement") {
+			return "panic:statement-without-type"
+		}
 		return "panic:other"
 	}
 	if crashedP || crashedF {
@@ -656,6 +659,7 @@ func optOne(c *common.Ctx, cs *common.Cases, oc *optCase, stream string) {
 	plainObs := map[string]diagObs{}
 	if !plain.Panicked && !malformed {
 		anyBad, anyErr := false, noCalls
+		anyNil := false           // a diagram reaches a statement without type: an error is as good as skipping it
 		final := map[string]int{} // output name -> index of the diagram that stays
 		for i := range ds {
 			anyBad = anyBad || ds[i].badStart
@@ -667,6 +671,7 @@ func optOne(c *common.Ctx, cs *common.Cases, oc *optCase, stream string) {
 		results := make([]res, len(ds))
 		for i := range ds {
 			w, wantErr, big, _ := refFor(apps, &ds[i], func(g *givenBB) bool { return len(g.note) > 0 })
+			anyNil = anyNil || refNilReached
 			if big {
 				c.Hist("skipped:reference-walk-too-big")
 				return
@@ -676,7 +681,7 @@ func optOne(c *common.Ctx, cs *common.Cases, oc *optCase, stream string) {
 		}
 		switch {
 		case plain.HasErr:
-			if !anyErr && !anyBad {
+			if !anyErr && !anyBad && !anyNil {
 				c.Fail("spurious-error", "DoConstructSequenceDiagrams returns an error although every entry and call target exists: "+plain.Err, rp)
 			}
 		case anyErr && !anyBad:
@@ -1031,7 +1036,7 @@ func genOptFormat(r *common.Rng, bad bool) string {
 
 func genOptCase(r *common.Rng) *optCase {
 	hostile := r.Chance(1, 10)
-	o := &genOpts{napps: 2 + r.Intn(3), neps: 1 + r.Intn(3), depth: 2, width: 3, patterns: r.Chance(1, 2), hidden: r.Chance(1, 3), dangling: hostile && r.Bool()}
+	o := &genOpts{napps: 2 + r.Intn(3), neps: 1 + r.Intn(3), depth: 2, width: 3, patterns: r.Chance(1, 2), hidden: r.Chance(1, 3), dangling: hostile && r.Bool(), nils: hostile && r.Chance(1, 3)}
 	tc := genModule(r, o)
 	apps := tc.Apps
 	decorate(r, apps)
@@ -1188,7 +1193,7 @@ func optHeader() string {
 	return `From Coq Require Import String Ascii List NArith Bool. Import ListNotations.
 Require Import Verif.Seq.SeqModel Verif.Seq.Fmt Verif.Seq.SeqOpts Verif.Seq.Run Verif.Seq.RunFmt Verif.Seq.RunOpts Verif.Gen.SeqShape Verif.Base.Harness.
 Local Open Scope string_scope. Local Open Scope N_scope.
-Notation C := Call. Notation Ac := Action. Notation D := Dots. Notation B := Block. Notation Al := Alt. Notation W := World.
+Notation C := Call. Notation Ac := Action. Notation D := Dots. Notation B := Block. Notation Al := Alt. Notation W := World. Notation Ni := Nil.
 Definition Re := Ret RetEmpty. Definition Rp := Ret RetPrim. Definition Rs := Ret RetShown.
 Definition EP h b := {| ep_hidden := h; ep_body := b |}. Definition AP p e := {| app_pats := p; app_eps := e |}.
 ` + jsonFact()
